@@ -107,7 +107,10 @@ fn is_primary_key_range(expr: &str) -> impl Fn(&mut EGraph, Id, &Subst) -> bool 
             return false;
         };
         if let Some(col) = egraph.analysis.catalog.get_column(column) {
-            col.is_primary()
+            // The range scan of the storage engine picks the start row from the block index of the
+            // table's first column and masks rows by the first scanned column (the scan list is in
+            // table order): it is only correct for a key that is the first column of the table.
+            col.is_primary() && column.column_id == 0
         } else {
             // handle the case that catalog is not initialized, like in test cases
             false
